@@ -34,7 +34,11 @@ def build(nargs, ndefaults, has_self, kwonly, in_method):
     return "X = 1\n\n" + fn + "\ndef g(z=3):\n    pass\n", names
 
 
-def sync(nargs, ndefaults, t, has_self, same_name, has_value, wrap, kwonly, in_method):
+ANNS = ("int", "Optional[int]", "List[str]")
+WRAPS = (None, "Optional[{output_param}]", "List[{output_param}]", "Optional[List[Union[{output_param}, str]]]")
+
+
+def sync(nargs, ndefaults, t, has_self, same_name, has_value, wrap, kwonly, in_method, ann=0):
     """returns (diag) for one shape"""
     from cdd.compound.sync_properties import sync_property
 
@@ -45,17 +49,25 @@ def sync(nargs, ndefaults, t, has_self, same_name, has_value, wrap, kwonly, in_m
     src, names = build(nargs, ndefaults, has_self, kwonly, in_method)
     target = "p%d" % t
     in_name = target if same_name else "q"
-    in_src = "class C(object):\n    other: float = 1.5\n    %s: int%s\n" % (in_name, " = 5" if has_value else "")
+    the_ann = ANNS[0]
+    for k in (1, 2):
+        if ann == k:
+            the_ann = ANNS[k]
+    the_wrap = WRAPS[0]
+    for k in (1, 2, 3):
+        if wrap == k:
+            the_wrap = WRAPS[k]
+    in_src = "class C(object):\n    other: float = 1.5\n    %s: %s%s\n" % (in_name, the_ann, " = 5" if has_value else "")
     from cdd.shared.source_transformer import ast_parse
 
     input_ast, output_ast = ast_parse(in_src, filename="<in>"), ast_parse(src, filename="<out>")  # as sync_properties() does
     before = ast.parse(src)
     path = ("K.f." if in_method else "f.") + target
     try:
-        out = sync_property(False, "C." + in_name, input_ast, "<in>", path, "Optional[{output_param}]" if wrap else None, output_ast)
+        out = sync_property(False, "C." + in_name, input_ast, "<in>", path, the_wrap, output_ast)
     except (AssertionError, NotImplementedError) as e:
         return "sync_property refused a valid request: %s: %s" % (type(e).__name__, e)
-    want_ann = "Optional[int]" if wrap else "int"
+    want_ann = the_ann if the_wrap is None else the_wrap.replace("{output_param}", the_ann)
 
     def fn_of(mod):
         body = mod.body[1].body if in_method else mod.body
@@ -116,11 +128,17 @@ for _na, _tier in ((1, "quick"), (2, "quick"), (3, "quick"), (4, "thorough"), (5
     for _meth in (False, True):
         ob("C13", "K1.param_target.n%d%s" % (_na, ".method" if _meth else ""),
            {"nargs": R(_na, _na), "ndefaults": R(0, _na), "t": R(0, _na - 1), "has_self": R(0, 2) if _meth else R(0, 0), "same_name": BOOL,
-            "has_value": BOOL, "wrap": BOOL, "kwonly": BOOL, "in_method": R(1, 1) if _meth else R(0, 0)},
+            "has_value": BOOL, "wrap": R(0, 1), "kwonly": BOOL, "in_method": R(1, 1) if _meth else R(0, 0), "ann": R(0, 0)},
            tier=_tier, T=400, tpath=60, funcs=FUNCS,
            bound="output %s with %d positional parameters%s, ANY number (0..%d) of right-aligned defaults, optional keyword-only tail, "
                  "ANY target index; input = annotated class attribute with the same or another name, with/without value; wrap template on/off "
                  "(finite shape space enumerated by the solver)" % ("method" if _meth else "function", _na, " (+ self / cls / static)" if _meth else "", _na))(sync)
+
+
+ob("C13", "K1.wrap_templates", {"nargs": R(2, 2), "ndefaults": R(0, 2), "t": R(0, 1), "has_self": R(0, 0), "same_name": BOOL, "has_value": BOOL,
+                                "wrap": R(0, 3), "kwonly": R(0, 0), "in_method": R(0, 0), "ann": R(0, 2)}, T=600, tpath=60, funcs=FUNCS,
+   bound="input annotation int / Optional[int] / List[str] x wrap template none / Optional[..] / List[..] / Optional[List[Union[.., str]]] (also templates whose outer "
+         "shape equals the annotation's): the target receives exactly template(annotation)")(sync)
 
 
 # class-attribute target -------------------------------------------------------------------------------------
